@@ -5,6 +5,25 @@ pub fn wire_bank(inv: &Inv, wire: usize, raw: Vec<i16>) -> (String, Vec<u8>) {
     let digit = std::char::from_digit(*ch as u32, 32).unwrap().to_ascii_uppercase();
     (format!("C{}{}", name, digit), Adc::simple(*mac, *ch, raw).encode())
 }
+/// As `wire_bank`, with the footer's keep fields set to a legal combination chosen at random: keep_bit clear; keep_bit
+/// set with keep_last at its minimum (34), anywhere, or at its maximum for the sample count (the signal still over
+/// threshold at the very last sample).
+pub fn wire_bank_varied(inv: &Inv, wire: usize, raw: Vec<i16>, rng: &mut crate::core::Rng) -> (String, Vec<u8>) {
+    let (name, mac, ch) = &inv.wire[wire];
+    let digit = std::char::from_digit(*ch as u32, 32).unwrap().to_ascii_uppercase();
+    let n = raw.len();
+    let mut a = Adc::simple(*mac, *ch, raw);
+    let kl_max = ((n + 3) / 2).min(4095) as u16; // n > (keep_last - 1) * 2 - 2
+    if n >= 64 && kl_max >= 34 {
+        match rng.below(4) {
+            0 => {}
+            1 => { a.keep_bit = true; a.keep_last = 34; }
+            2 => { a.keep_bit = true; a.keep_last = kl_max; }
+            _ => { a.keep_bit = true; a.keep_last = 34 + rng.below((kl_max - 33) as u64) as u16; }
+        }
+    }
+    (format!("C{}{}", name, digit), a.encode())
+}
 /// pads: (col,row)->raw samples (all same length n<=511). Sends only the listed channels.
 pub fn pad_banks(inv: &Inv, pads: &BTreeMap<(usize, usize), Vec<i16>>, chunk_size: usize) -> Vec<(String, Vec<u8>)> {
     let mut groups: BTreeMap<(String, u8), Vec<(u16, Vec<i16>)>> = BTreeMap::new();
